@@ -8,7 +8,7 @@
    parenthesis state b' and has advanced the line counter by the number of LF octets in s.
    Not covered by the renderer (docs/C23.md): the "::" and embedded IPv4 forms of IPv6 text, a raw CR inside an
    unquoted token.  The WKS bit map uses the implementation's bit order (finding 3). *)
-From QV Require Import Base.ListX Model.NameWire Spec.NameRepr Model.ZfStd Model.ZfReader Model.ZfParser
+From QV Require Import Base.ListX Model.NameWire Spec.NameRepr Model.ZfStd Model.ZfReader Model.ZfParser Model.ZfRecOnly
   Spec.ZfValidS Spec.ZfRenderS Proofs.ZfReaderP Proofs.ZfFieldsP Proofs.ZfRunP Proofs.ZfTokP Proofs.ZfNameRP Proofs.ZfSymP
   Proofs.ZfAddrP Proofs.ZfRecRP Proofs.ZfLineRP.
 
@@ -111,6 +111,12 @@ Theorem c23_file_roundtrip : forall ls, file_ok sctx0 ls = true ->
   exists p, parse_all (render ls) = Ok (items_of (number_lines ls), p).
 Proof. exact file_roundtrip. Qed.
 
+(* the same through Parser::records_only(), the iterator the zone loader consumes (model: Model/ZfRecOnly.v, C24):
+   a rendered file without $INCLUDE lines yields exactly its records *)
+Theorem c23_file_roundtrip_records_only : forall ls, file_ok sctx0 ls = true -> no_include ls ->
+  exists p, ro_all (render ls) = Ok (records_of (number_lines ls), p).
+Proof. exact file_roundtrip_records_only. Qed.
+
 (* ---- non-vacuity ----------------------------------------------------------------------------------------------------------------------- *)
 
 Definition sp : sep := mkSep [] [32].
@@ -194,3 +200,4 @@ Print Assumptions c23_rdata.
 Print Assumptions c23_record_line.
 Print Assumptions c23_line.
 Print Assumptions c23_file_roundtrip.
+Print Assumptions c23_file_roundtrip_records_only.
